@@ -251,7 +251,7 @@ def oracle(ctx, fn, days, years):
                               impl=got, expected=want)
     # EOMONTH into the first months of Excel's calendar, where it differs from the Gregorian one: January,
     # (29-day) February and March 1900 end on the serial days 31, 60 and 91
-    for n, m0 in [(1, 1), (15, 1), (31, 1), (32, 2), (40, 2), (59, 2), (60, 2), (61, 3), (75, 3), (426, 15), (791, 27)]:
+    for n, m0 in [(0, 1), (1, 1), (15, 1), (31, 1), (32, 2), (40, 2), (59, 2), (60, 2), (61, 3), (75, 3), (426, 15), (791, 27)]:
         for target, want in ((1, 31), (2, 60), (3, 91)):
             k = target - m0
             ctx.count(('eom1900', n, k), kind='oracle-eomonth')
@@ -260,6 +260,12 @@ def oracle(ctx, fn, days, years):
                 ctx.violation(dict(call='eomonth', args=[n, k], oracle='eomonth-1900'),
                               "EOMONTH is not the last day of the shifted month (Excel's 1900 calendar)",
                               impl=got, expected=want)
+    # serial 0 (1900-01-00) is a legal start (seeded change C17-months-inc-day-zero-excluded: `0 < start_date`)
+    ctx.count(('edate-zero', 0, 0), kind='oracle-edate-feb')
+    got = run_impl(fn['edate'], 0, 0)
+    if not (got[0] == 'ok' and isinstance(got[1], (int, tuple)) and value_num(got[1]) == 0):
+        ctx.violation(dict(call='edate', args=[0, 0], oracle='edate-day-zero'),
+                      "EDATE(0, 0) is not the start date itself", impl=got, expected=0)
     # EDATE from the last days of a month into every February nearby (leap and non-leap targets
     # in years other than the start year: the clip must use the TARGET month's length)
     import calendar
